@@ -5,6 +5,7 @@ one lemma per kind of table, used by `Props/C10.lean`.
 import CompmechVerif.Bardell.IntegralLemmas
 import CompmechVerif.Bardell.CheckLemmas
 import CompmechVerif.Bardell.GaussLemmas
+import CompmechVerif.Bardell.BasisLemmas
 
 set_option linter.unusedSectionVars false
 set_option linter.unusedSimpArgs false
@@ -13,10 +14,6 @@ set_option linter.unusedVariables false
 
 namespace Compmech.C10
 open Compmech IPoly intervalIntegral
-
-theorem fact_pos : ∀ n, 0 < fact n
-  | 0 => Nat.one_pos
-  | n + 1 => Nat.mul_pos (Nat.succ_pos n) (fact_pos n)
 
 theorem basis_den_pos (i : Nat) : 0 < (basis i).den := by
   match i with
